@@ -4,7 +4,7 @@ from ref import pools, zkp, surjection as sj
 
 ID = "C11"
 LEVEL = "exploration"
-CONFIGS = {"quick": ["san", "mx_i64"], "thorough": ["san", "san_nv", "mx_i64"]}
+CONFIGS = {"quick": ["san", "san_nv", "mx_i64"], "thorough": ["san", "san_nv", "mx_i64"]}
 RULE = ("initialize for input counts 1..256 x subset sizes (all pairs for n <= 8, boundary and sampled above, always 255 / 256), the matching input at every "
         "position and with multiplicity 1..3, several seeds and iteration limits (incl. 0 and 1); generate + verify with matching keys, blinding keys "
         "0 / n-1 / >= n, an input equal to the output; verify on library proofs and reference-prover proofs with small forged scalars and their s+n "
@@ -15,6 +15,15 @@ ASSUMPTIONS = ["ref/surjection.py + ref/borromean.py transcribe surjection.md an
 
 def mk_tags(rng, nin, match_pos, out_tag):
     tags = [pools.rbytes(rng, 32) for _ in range(nin)]
+    # decoys: non-matching tags that equal the output tag except in ONE byte (any of the 32 positions), or share a prefix / suffix with it
+    if rng.random() < 0.5:
+        for j in range(nin):
+            z = rng.random()
+            if z < 0.25:
+                k = rng.randrange(32); t = bytearray(out_tag); t[k] ^= rng.choice((1, 0x80, 0xff, rng.randrange(1, 256))); tags[j] = bytes(t)
+            elif z < 0.35:
+                k = rng.randrange(1, 32); tags[j] = (out_tag[:k] + tags[j][k:]) if rng.random() < 0.5 else (tags[j][:k] + out_tag[k:])
+                if tags[j] == out_tag: tags[j] = pools.rbytes(rng, 32)
     for pos in match_pos: tags[pos] = out_tag
     return tags
 
@@ -105,7 +114,7 @@ def vcase(ctx, config, sbytes, in_pts, in_objs, out_pt, out_obj, cls, nontrivial
 
 def wl_generate(ctx, config):
     rng = ctx.rng
-    for it in range(ctx.n(160, 3500)):
+    for it in ctx.iters(160, 3500):
         nin = rng.choice((1, 2, 3, 4, 5, 8, 9)) if ctx.quick or rng.random() < 0.9 else rng.choice((64, 255, 256))
         use = rng.randrange(1, min(nin, 6) + 1); pos = [rng.randrange(nin)]
         S = Scene(ctx, config, rng, nin, pos)
@@ -149,7 +158,7 @@ def wl_generate(ctx, config):
                 c2 = ctx.call("surj_counts", g2.b(1), config=config); s4 = ctx.call("surj_serialize", g2.b(1), c2.i(2), config=config)
                 if s4 is not None and s4.ret == 1: vcase(ctx, config, s4.b(2), S.in_pts, S.in_obj, S.out_pt, S.out_obj, "wrong_key_proof")
     # an input equal to the output (same tag, same blinding): generate refuses, verify rejects
-    for it in range(ctx.n(24, 400)):
+    for it in ctx.iters(24, 400):
         nin = rng.randrange(1, 6); S = Scene(ctx, config, rng, nin, [0])
         S.in_keys[0] = S.out_key; ok, S.in_pts[0] = zkp.generate(S.tags[0], b32(S.out_key)); S.in_obj[0] = ctx.call("generator_generate_blinded", S.tags[0], b32(S.out_key), config=config).b(1)
         r = ctx.call("surj_initialize", b''.join(S.tags), nin, nin, S.out_tag, 10, pools.rbytes(rng, 32), 0, config=config)
@@ -199,7 +208,7 @@ def mutate(ctx, config, rng, sb, S, tag):
 
 def wl_refprover(ctx, config):
     rng = ctx.rng
-    for it in range(ctx.n(120, 3000)):
+    for it in ctx.iters(120, 3000):
         nin = rng.choice((1, 2, 3, 4, 6, 8)); S = Scene(ctx, config, rng, nin, [rng.randrange(nin)])
         match = S.tags.index(S.out_tag)
         others = [j for j in range(nin) if j != match]; rng.shuffle(others)
